@@ -7,6 +7,7 @@ ctx = vlib.Ctx('C08')
 if ctx.replay:
     _core_check.replay(ctx); sys.exit(0)
 vlib.proof_phase(ctx)
+_core_check.source_lat(ctx)      # the class table, the listed bases and the closure loop, as translated from compiler.hpp
 res = coresuite.present_suite(ctx.tier, ctx.seed)
 cov = coresuite.summarize_groups(ctx, res, 'presentations of one inheritance graph')
 
